@@ -53,7 +53,7 @@ Done == result # "run"
 
 \* ---- construction
 PayLine == {"T", "E", "F", "LK"}
-SigLine == {"T", "E"}
+SigLine == {"T", "E", "BS", "LK"}     \* (any line but the END marker is signature text, a BEGIN look-alike too)
 SeqsUpTo(S, n) == UNION { [1..k -> S] : k \in 0..n }
 Wrap(h, p, s) == <<"BM">> \o h \o <<"E">> \o p \o <<"BS">> \o s \o <<"ES">>
 Range(a, b) == [k \in 1..(b - a + 1) |-> a + k - 1]
